@@ -293,6 +293,7 @@ GRAPHS = [
     (["sysenv"], [("sysenv", "sysenv", "t")], []),
     (["sysenv", "use", "reuse"], [("sysenv", "use", "ab"), ("use", "reuse", "ba"), ("reuse", "sysenv", "ab")], []),
     (["sysenv", "use"], [("sysenv", "use", ""), ("use", "sysenv", "t"), ("use", "sysenv", "")], []),       # flows without any dimension
+    (["use", "sysenv", "waste"], [("sysenv", "use", "ta"), ("use", "waste", "ta")], [("waste", "ta")]),      # hand-built: the system environment is not listed first
 ]
 
 
@@ -300,7 +301,10 @@ def build_system(w: World, graph, zero_flows=(), proc_ids=None):
     prog, it = w.prog, w.it
     procs_n, flows_n, stocks_n = graph
     Process = prog.cls("Process")
-    ids = proc_ids or {n: i for i, n in enumerate(procs_n)}       # a hand-built system may list its processes in any order of ids
+    if proc_ids is None:        # the system environment has id 0 wherever it is listed; a hand-built system may list its processes in any order
+        rest = [n for n in procs_n if n != "sysenv"]
+        proc_ids = {"sysenv": 0, **{n: i + 1 for i, n in enumerate(rest)}}
+    ids = proc_ids
     procs = {n: it.construct(Process, [], dict(name=n, id=ids[n])) for n in procs_n}
     Flow = prog.cls("Flow")
     flows, leafs = {}, {}
@@ -507,8 +511,44 @@ def verdict_case(prog, rep, fails, gi, graph, assign, raise_error, tol):
 def history_worker(prog, rep, job):
     gi, second = job
     fails = {}
-    history_case(prog, rep, fails, gi, GRAPHS[gi], second)
+    if second == "second-system":
+        second_system_case(prog, rep, fails, gi, GRAPHS[gi])
+    else:
+        history_case(prog, rep, fails, gi, GRAPHS[gi], second)
     return fails
+
+
+def second_system_case(prog, rep, fails, gi, graph):
+    """one process, two systems: a first system with a NaN flow is checked with all defaults; then a SECOND, freshly built system
+    (same flow names) with a negative entry in that flow is checked - nothing of the first check may carry over"""
+    rid = "C02.verdict-follows-current-values"
+    w = World(prog)
+    it = SysInterp(prog)
+    w.it = it
+    mfa1, leafs = build_system(w, graph)
+    fnames = [n for n in leafs if isinstance(leafs[n][0], str)]
+    if not fnames:
+        return
+    it.flow_class = {leafs[n][0]: "ok" for n in fnames}
+    it.flow_class[leafs[fnames[0]][0]] = "nan"
+    run_guarded(lambda: it.call_method(mfa1, "check_flows"))
+    mfa2, leafs2 = build_system(w, graph)
+    it.flow_class = {leafs2[n][0]: "ok" for n in fnames}
+    it.flow_class[leafs2[fnames[0]][0]] = "neg"
+    for raise_error in (False, True):
+        it.log.clear()
+        kind, r = run_guarded(lambda: it.call_method(mfa2, "check_flows", **({"raise_error": True} if raise_error else {})))
+        rep.evaluations += 1
+        warned = [l.msg for l in it.log if l.level in ("WARNING", "ERROR")]
+        inp = {"flows": [list(f) for f in graph[1]], "history": "system 1 (first flow holds a NaN): check_flows(); system 2, freshly built (first flow has a negative entry): check_flows()",
+               "raise_error": raise_error}
+        if raise_error:
+            ok = kind == "raise" and fnames[0] in getattr(r, "msg", "")
+        else:
+            ok = kind == "ok" and any(_mentions(m, fnames[0], fnames) for m in warned)
+        rep.oblige(rid, ok, where="MFASystem.check_flows", what=str(inp), distinct=(rid, gi, "second-system", raise_error))
+        if not ok:
+            note(fails, rid, "MFASystem.check_flows", inp, f"the negative flow '{fnames[0]}' of the second system is not reported ({kind}; warnings {warned!s:.120}): an earlier check of another system left something behind")
 
 
 def history_case(prog, rep, fails, gi, graph, second):
@@ -708,7 +748,7 @@ def run(prog, rep):
     balance_cases(prog, rep, fails)
     verbose_cases(prog, rep, fails)
     jobs = []
-    graphs_v = [0, 2, 3, 5] if rep.tier == "quick" else list(range(len(GRAPHS)))
+    graphs_v = [0, 2, 3, 5, 9] if rep.tier == "quick" else list(range(len(GRAPHS)))
     for gi in graphs_v:
         n = len(GRAPHS[gi][0])
         allp = list(itertools.product(("ok", "bad", "nan"), repeat=n))
@@ -722,7 +762,7 @@ def run(prog, rep):
         for chunk in [allp[i::4] for i in range(4)]:
             jobs.append((gi, chunk, "flows"))
     rep.rule("C02.verdict-follows-current-values", "on one system object checked, refilled and checked again, the second verdict and the default tolerance are those of the present values")
-    hjobs = [(gi, second) for gi in range(len(GRAPHS)) for second in ("ok", "bad", "neg")]
+    hjobs = [(gi, second) for gi in range(len(GRAPHS)) for second in ("ok", "bad", "neg")] + [(gi, "second-system") for gi in (0, 1, 3)]
     for part in pmap(history_worker, hjobs, prog, rep):
         for k, (count, inp, msg) in part.items():
             c = fails.get(k)
